@@ -105,9 +105,9 @@ def gen_project(rng, idx):
         files['tmpl%d.in' % c] = 'tmpl %d\n' % c
         how = rng.choice(['depends', 'input'])
         if how == 'depends':
-            mb.append("gsrc%d = custom_target('gsrc%d', input : 'tmpl%d.in', output : 'gsrc%d.c', depends : hdr%d, command : [gen, '@OUTPUT@', '@INPUT@'])" % (c, c, c, c, h))
+            mb.append("gsrc%d = custom_target('gsrc%d', input : 'tmpl%d.in', output : 'gsrc%d.c', depends : hdr%d, command : [gen, '@OUTPUT@', '@INPUT@', '@OUTDIR@/gen%d%s'])" % (c, c, c, c, h, h, suf[h]))
             files_inc = None
-            custom('gsrc%d' % c, ['gsrc%d.c' % c], [('file', 'tmpl%d.in' % c)], [PROG, STR, STR], [('target', 'hdr%d' % h)])
+            custom('gsrc%d' % c, ['gsrc%d.c' % c], [('file', 'tmpl%d.in' % c)], [PROG, STR, STR, STR], [('target', 'hdr%d' % h)])
         else:
             mb.append("gsrc%d = custom_target('gsrc%d', input : ['tmpl%d.in', hdr%d], output : 'gsrc%d.c', command : [gen, '@OUTPUT@', '@INPUT@'])" % (c, c, c, h, c))
             custom('gsrc%d' % c, ['gsrc%d.c' % c], [('file', 'tmpl%d.in' % c), ('target', 'hdr%d' % h)], [PROG, STR, STR])
@@ -245,23 +245,23 @@ def gen_project(rng, idx):
         ka = rng.choice(['static_library', 'static_library', 'shared_library'])
         mb.append("xa = %s('xa', 'xa.c', gh.process('xa.in'))" % ka)
         build('xa', ka, 'xa', [('file', 'xa.c'), process('gh', 'xa.in')])
-        files['xb.c'] = 'int xa(void);\nint xb(void) { return xa(); }\n'
+        files['xb.c'] = '#include "xa_p.h"\nint xa(void);\nint xb(void) { return xa() + VAL_xa_p; }\n'
         kb = rng.choice(['static_library', 'shared_library'])
-        mb.append("xb = %s('xb', 'xb.c', link_with : xa)" % kb)
+        mb.append("xb = %s('xb', 'xb.c', link_with : xa, include_directories : xa.private_dir_include())" % kb)
         build('xb', kb, 'xb', [('file', 'xb.c')], lw=['xa'])
         top = 'xb'
         if rng.random() < 0.5:
-            files['xc.c'] = 'int xb(void);\nint xc(void) { return xb(); }\n'
+            files['xc.c'] = '#include "xa_p.h"\nint xb(void);\nint xc(void) { return xb() + VAL_xa_p; }\n'
             kc = rng.choice(['static_library', 'shared_library'])
-            mb.append("xc = %s('xc', 'xc.c', link_with : xb)" % kc)
+            mb.append("xc = %s('xc', 'xc.c', link_with : xb, include_directories : xa.private_dir_include())" % kc)
             build('xc', kc, 'xc', [('file', 'xc.c')], lw=['xb'])
             top = 'xc'
         inner = {'srcs': [('custom', 'xgh')], 'lw': [top], 'lwh': [], 'sub': []}
         nested = rng.random() < 0.6
-        mb.append("xdep = declare_dependency(sources : xgh, link_with : %s)" % top)
+        mb.append("xdep = declare_dependency(sources : xgh, link_with : %s, include_directories : xa.private_dir_include())" % top)
         if nested:
             mb.append("xdep2 = declare_dependency(dependencies : xdep)")
-        files['xe.c'] = '#include "xg.h"\nint f_xg(void);\nint %s(void);\nint main(void) { return f_xg() + %s() + ALSO_xg; }\n' % (top, top)
+        files['xe.c'] = '#include "xg.h"\n#include "xa_p.h"\nint f_xg(void);\nint %s(void);\nint main(void) { return f_xg() + %s() + ALSO_xg + VAL_xa_p; }\n' % (top, top)
         mb.append("xe = executable('xe', 'xe.c', dependencies : %s)" % ('xdep2' if nested else 'xdep'))
         build('xe', 'executable', 'xe', [('file', 'xe.c')], deps=[{'srcs': [], 'lw': [], 'lwh': [], 'sub': [inner]} if nested else inner])
         if rng.random() < 0.6:
@@ -625,6 +625,8 @@ def compare_with_model(ctx, results):
         return [], []
     outs = ctx.run_model(cases)
     nstmt = nreads = 0
+    from collections import Counter
+    clauses = Counter()
     for res, ans in zip(todo, outs):
         class N:
             name = res['gen_names']
@@ -641,6 +643,7 @@ def compare_with_model(ctx, results):
         for key in res['real_stmts']:
             produced |= set(key)
         n, bad = c05_gen.compare(res['real_stmts'], model, res['observed_reads'], produced)
+        clauses.update(c05_gen.classify_reads(res['real_stmts'], res['observed_reads'], produced))
         nstmt += n
         nreads += len(res['observed_reads'])
         ctx.cov['evaluations'] += n
@@ -649,6 +652,14 @@ def compare_with_model(ctx, results):
             b['seed'] = ctx.seed
             b['meson.build'] = res['files'].get('meson.build', '')
             ctx.disagreements.append(json.loads(json.dumps(b, default=str).replace(res.get('root', '\0'), '')))
+    # which clauses of the read assumption were really exercised (a read that no generated source performs
+    # would leave a missing edge invisible to the executor)
+    ctx.extra['read_assumption_coverage'] = {k: clauses.get(k, 0) for k in c05_gen.READ_CLAUSES}
+    ctx.extra['read_assumption_coverage'].update({k: v for k, v in clauses.items() if k not in c05_gen.READ_CLAUSES})
+    ctx.extra['read_assumption_clauses_never_observed'] = [k for k in c05_gen.READ_CLAUSES if not clauses.get(k)]
+    print('C05 read-assumption clauses observed by strace: %d of %d; never observed: %s'
+          % (sum(1 for k in c05_gen.READ_CLAUSES if clauses.get(k)), len(c05_gen.READ_CLAUSES),
+             ctx.extra['read_assumption_clauses_never_observed'] or 'none'))
     ctx.extra['model_correspondence'] = {
         'projects': len(todo), 'statements_compared': nstmt, 'steps_with_observed_reads_checked': nreads,
         'compared': 'per statement: outputs, explicit / implicit / order-only inputs and declared ancestors as sets of normalised paths',
